@@ -1,0 +1,30 @@
+//go:build verif
+
+// Contracts checked by /verif/gvc (contract-based deductive verification).
+// This file contains comments only; it is compiled only under the "verif" build tag.
+
+package unack
+
+// Interface contract of unack.Store: the abstract view is the set $has of QoS 2 packet identifiers for which
+// a PUBLISH was accepted and PUBREL has not been seen. Implementations are checked against it under C04/C09.
+
+//@ ghost field (Store).has uint16 -> bool
+
+//@ func (Store).Set
+//@ params s, id
+//@ modifies ghost(s.$has)
+//@ ensures result1 == nil ==> result0 == old(s.$has[id])
+//@ ensures result1 == nil ==> (forall i uint16 :: s.$has[i] == (i == id || old(s.$has[i])))
+//@ ensures result1 != nil ==> (forall i uint16 :: s.$has[i] == old(s.$has[i]))
+
+//@ func (Store).Remove
+//@ params s, id
+//@ modifies ghost(s.$has)
+//@ ensures result == nil ==> (forall i uint16 :: s.$has[i] == (i != id && old(s.$has[i])))
+//@ ensures result != nil ==> (forall i uint16 :: s.$has[i] == old(s.$has[i]))
+
+//@ func (Store).Init
+//@ params s, cleanStart
+//@ modifies ghost(s.$has)
+//@ ensures result == nil && cleanStart ==> (forall i uint16 :: !s.$has[i])
+//@ ensures result == nil && !cleanStart ==> (forall i uint16 :: s.$has[i] == old(s.$has[i]))
